@@ -158,8 +158,19 @@ pub fn check_c04(obs: &Observation) -> V {
                         }
                         n_linked += 1;
                         if n_linked > reqs {
+                            // classified cause: the remote asked to sync and then to unlink; the unlink was
+                            // processed while the sync was still being answered, and the rest of the answer
+                            // (targeted at a remote that is no longer linked) opened the link again
+                            let lane_frames: Vec<&Frame> = r.frames.iter().filter(|g| g.lane == lane).collect();
+                            let pos = lane_frames.iter().position(|g| std::ptr::eq(*g, f)).unwrap_or(0);
+                            let prev_unlinked = pos > 0 && lane_frames[pos - 1].kind == FrameKind::Unlinked;
+                            let unlink_sent = r.sent.iter().filter(|(st, s)| *st < f.step && matches!(s, Step::Unlink(l) if *l == lane)).map(|(st, _)| *st).max();
+                            let sync_before_unlink = unlink_sent.map(|u| r.sent.iter().any(|(st, s)| *st < u && matches!(s, Step::Sync(l) if *l == lane))).unwrap_or(false);
+                            let synced_before = lane_frames[..pos].iter().filter(|g| g.kind == FrameKind::Synced).count();
+                            let synced_later = lane_frames[pos..].iter().any(|g| g.kind == FrameKind::Synced);
+                            let late_answer = prev_unlinked && sync_before_unlink && synced_before < syncs && synced_later;
                             add(
-                                format!("as: linked without a link or sync request lane-kind={}", kind),
+                                format!("as: linked without a link or sync request lane-kind={}{}", kind, if late_answer { " [the rest of a sync answer, arriving after the same remote's unlink was processed, opened the link again]" } else { "" }),
                                 format!("remote {} lane {}: {} linked frames but only {} link/sync requests sent before step {}", ri, lane, n_linked, reqs, f.step),
                             );
                         }
